@@ -11,10 +11,12 @@ import sys
 from decimal import Decimal
 from fractions import Fraction
 
+from gallery_helper import Color, Helper
+
 __all__ = [
     "Switch", "Node", "TooSmall", "TooBig", "NotEven", "level_of", "checked", "half", "price", "day_after",
     "leave", "leave_quietly", "ratio", "blob", "nest", "chain_value", "wrap", "uniq", "Denied", "Refused", "Rejected",
-    "deny", "refuse", "reject",
+    "deny", "refuse", "reject", "favourite", "helper_for",
 ]
 
 
@@ -196,3 +198,15 @@ def uniq(xs: list) -> set:
         if isinstance(x, (int, str)):
             out.add(x)
     return out
+
+
+def favourite(n: int) -> Color:
+    if n % 2:
+        return Color.RED
+    return Color.GREEN
+
+
+def helper_for(n: int) -> Helper:
+    if n > 3:
+        return Helper("big")
+    return Helper()
